@@ -25,6 +25,8 @@ class Sys:
         models.install_common(e)
         models.install_resolvers(e)
         S.install(e, self.resolver)
+        import stdmodels
+        stdmodels.install(e)
         e.leaf_poll = self.leaf_poll
         e.resolve_future_impl = self.resolve_future_impl
         e.drop_handler = self.on_drop
@@ -38,7 +40,8 @@ class Sys:
         ins(r'^<A as (actor::)?Actor>::started$', self.m_user('started'))
         ins(r'^<A as (actor::)?Actor>::stopped$', self.m_user('stopped'))
         ins(r'^<A as (handler::)?Handler<.*>>::handle$', self.m_user('handle'))
-        ins(r'^<A as (handler::)?StreamHandler<.*>>::(handle|finished)$', self.m_user('stream'))
+        ins(r'^<A as (handler::)?StreamHandler<.*>>::handle$', self.m_user('stream'))
+        ins(r'^<A as (handler::)?StreamHandler<.*>>::finished$', self.m_user('finished'))
         ins(r'^<(A|Self) as Default>::default$', self.m_default_actor)
         ins(r'^<R as (actor::restart_strategy::)?RestartStrategy<A>>::refresh$', self.m_refresh)
         # closures / dyn dispatch
@@ -673,6 +676,23 @@ class Sys:
                     return [(st, ready(res))]
                 block_on(st, fut.extra['oid'])
                 return [(st, PENDING)]
+            if fut.name == 'leaf' and fut.extra.get('kind') == 'userstream' and st.meta.get('ustream') is not None:
+                # the attached stream is a scripted queue fed by a client task (ops feed / end_stream)
+                us = st.meta['ustream']
+                q = mget(st, us)
+                if q['items']:
+                    it = q['items'][0]
+                    mset(st, us, items=tuple(q['items'][1:]))
+                    st.event('stream_yield', it)
+                    return [(st, ready(some(Msg.new(it))))]
+                if q['closed']:
+                    if q['ended']:
+                        st.event('stream_polled_after_end')
+                    mset(st, us, ended=True)
+                    st.event('stream_yield', 'end')
+                    return [(st, ready(NONE))]
+                block_on(st, us)
+                return [(st, PENDING)]
             if fut.name == 'leaf' and fut.extra.get('kind') == 'userstream':
                 never = st.meta.get('never')
                 if never is None:
@@ -722,8 +742,8 @@ class Sys:
         if kind == 'userfut':
             st.event('userfut_run', n, mget(st, self.clock(st))['now'])
             return [(st, ready(UNIT))]
-        if kind in ('stopped', 'stream'):
-            st.event('user_done', kind, n, fut.extra.get('actor'), '')
+        if kind in ('stopped', 'stream', 'finished'):
+            st.event('user_done', kind, n, fut.extra.get('actor'), _describe(fut.fields.get(('f', 0))) if kind == 'stream' else '')
             return [(st, ready(UNIT))]
         raise Unsupported(f"leaf {kind}")
 
